@@ -273,9 +273,9 @@ def PathDecls(c: "CMap", ns: "Ns", kind: "Str", hi: "Int") -> "DMap":
     """union of the entries along the namespace path take(ns,1) .. take(ns,hi), inner entries shadowing outer ones"""
     axiom("base", forall(lambda c, ns, kind: same(PathDecls(c, ns, kind, 1), Ent(c, take(ns, 1), kind)),
                          triggers=[PathDecls(c, ns, kind, 1)]))
-    axiom("step", forall(lambda c, ns, kind, hi: implies(
-        hi >= 2, same(PathDecls(c, ns, kind, hi), mupdate(PathDecls(c, ns, kind, hi - 1), Ent(c, take(ns, hi), kind)))),
-        triggers=[PathDecls(c, ns, kind, hi)]))
+    axiom("step", forall(lambda c, ns, kind, hi, k: implies(
+        k == hi - 1 and k >= 1, same(PathDecls(c, ns, kind, hi), mupdate(PathDecls(c, ns, kind, k), Ent(c, take(ns, hi), kind)))),
+        triggers=[(PathDecls(c, ns, kind, hi), PathDecls(c, ns, kind, k))]))
 
 
 @contract("src.ir.context.Context._get_declarations")
